@@ -22,7 +22,7 @@ def sub_scenario(js, gid):
     css = set(comp["charging_stations"])
     keep = set()
     for vid, v in comp["vehicles"].items():
-        evs = [e for e in ev["vehicle_events"] if e["vehicle_id"] == vid]
+        evs = [e for e in ev.get("vehicle_events", []) if e["vehicle_id"] == vid]
         stations = {v.get("connected_charging_station")} | {e["update"].get("connected_charging_station") for e in evs}
         stations.discard(None)
         if stations and stations <= css:
@@ -32,8 +32,8 @@ def sub_scenario(js, gid):
     comp["photovoltaics"] = {k: v for k, v in comp.get("photovoltaics", {}).items() if v["parent"] == gid}
     for k in ("fixed_load", "local_generation"):
         ev[k] = {n: v for n, v in ev.get(k, {}).items() if v["grid_connector_id"] == gid}
-    ev["grid_operator_signals"] = [s for s in ev["grid_operator_signals"] if s["grid_connector_id"] == gid]
-    ev["vehicle_events"] = [e for e in ev["vehicle_events"] if e["vehicle_id"] in keep]
+    ev["grid_operator_signals"] = [s for s in ev.get("grid_operator_signals", []) if s["grid_connector_id"] == gid]
+    ev["vehicle_events"] = [e for e in ev.get("vehicle_events", []) if e["vehicle_id"] in keep]
     return js
 
 
@@ -41,8 +41,45 @@ class DistUnit(corr.Unit):
     name = "distributed"
     tagfn = None
 
+    def directed(self, rng):
+        """limited charging points, vehicles announced to arrive within the next minutes, an unrelated second connector"""
+        import datetime
+        start = datetime.datetime.fromisoformat("2023-01-0%dT08:00:00+02:00" % rng.randint(2, 8))
+        iv = rng.choice([15, 15, 10])
+        n = rng.choice([8, 12])
+        comp = {"grid_connectors": {"GC1": {"max_power": rng.choice([50, 100]), "cost": {"type": "fixed", "value": 0.3}, "number_cs": rng.choice([1, 1, 2]),
+                                            "voltage_level": "MV", "grid_operator": "default_grid_operator"},
+                                    "GC2": {"max_power": 100, "cost": {"type": "fixed", "value": 0.3}, "voltage_level": "MV", "grid_operator": "default_grid_operator"}},
+                "charging_stations": {}, "vehicle_types": {"vt": {"name": "vt", "capacity": rng.choice([50, 200]), "charging_curve": [[0, 50], [1, 50]]}},
+                "vehicles": {}, "batteries": {}, "photovoltaics": {}}
+        evs = []
+        kk = rng.randint(0, 2)
+        names = ["bus%d" % i for i in range(rng.choice([2, 3]))]
+        rng.shuffle(names)
+        names.insert(rng.choice([len(names), len(names), 0]), "zdepot")      # usually the last vehicle of the scenario
+        for vid in names:
+            depot = vid == "zdepot"
+            cs = "CS_%s_%s" % (vid, "deps" if depot else "opps")
+            comp["charging_stations"][cs] = {"max_power": 50, "parent": "GC2" if depot else "GC1"}
+            soc = rng.choice([0.2, 0.4, 0.6, 0.9]) if not depot else rng.choice([0.02, 0.98])
+            if depot:
+                comp["vehicles"][vid] = {"vehicle_type": "vt", "soc": soc, "desired_soc": 1, "connected_charging_station": cs,
+                                         "estimated_time_of_departure": scen.iso(start + datetime.timedelta(minutes=iv * n))}
+            else:
+                comp["vehicles"][vid] = {"vehicle_type": "vt", "soc": soc, "desired_soc": 1}
+                # one bus arrives on a step boundary, the others 1-3 minutes later (announced within the look-ahead)
+                k = kk if rng.random() < 0.8 else rng.randint(0, 2)
+                first = not any(e["vehicle_id"].startswith("bus") for e in evs)
+                arr = start + datetime.timedelta(minutes=iv * k + (0 if first else rng.choice([1, 2, 2, 3])))
+                evs.append({"signal_time": scen.iso(arr - datetime.timedelta(hours=2)), "start_time": scen.iso(arr), "vehicle_id": vid, "event_type": "arrival",
+                            "update": {"connected_charging_station": cs, "estimated_time_of_departure": scen.iso(arr + datetime.timedelta(minutes=iv * rng.randint(2, 5))),
+                                       "desired_soc": 1, "soc_delta": -rng.choice([0.05, 0.1, 0.0])}})
+        js = {"scenario": {"start_time": scen.iso(start), "interval": iv, "n_intervals": n}, "components": comp,
+              "events": {"fixed_load": {}, "local_generation": {}, "grid_operator_signals": [], "vehicle_events": evs}}
+        return {"js": js, "options": {}}
+
     def generate(self, rng, n, biased=False):
-        out = []
+        out = [self.directed(rng) for _ in range(max(3, n // 3))]
         for _ in range(n):
             feats = set(k for k in ("fixed", "price", "unaligned", "minpower", "number_cs", "limit") if rng.random() < 0.4)
             js = scen.gen_scenario(rng, n_gc=rng.choice([1, 2, 3]), n_veh=rng.randint(1, 6), features=feats, steps=rng.choice([6, 12, 24]))
@@ -86,10 +123,9 @@ class DistUnit(corr.Unit):
                 if len(active) > gc["number_cs"]:
                     v.append(("C14/number-cs", "step %d: %d stations carry power at %s, number_cs=%d: %s" % (i, len(active), g, gc["number_cs"], d)))
         for g, sub in out["subs"].items():
-            if js["components"]["grid_connectors"][g].get("number_cs") is not None:
-                continue
+            limited = js["components"]["grid_connectors"][g].get("number_cs") is not None
             for label, other in (("delegation", sub["run"]), ("independence", sub["alone"])):
-                if other["raised"]:
+                if other["raised"] or (limited and label == "delegation"):
                     continue
                 n = min(full["step_i"] - (1 if full["aborted"] else 0), other["step_i"] - (1 if other["aborted"] else 0))
                 for i in range(n):
